@@ -181,6 +181,7 @@ Definition boot (P : params) (img : nstate) : nrun * list N :=
   | RecOk s tr => (Up s, 1 :: enc_trace tr ++ enc_state s)
   | RecErr => (Down img, [2])
   | RecPanic => (Down img, [3])
+  | RecBlocks => (Down img, [4])
   end.
 
 (* structured observation of one event (what the theorems speak about) *)
